@@ -53,8 +53,8 @@ HOOKS = [
     Stub('gh_copy', ghosts=['G_blk', 'G_nctor', 'G_ncopy', 'G_ext_addr', 'G_ext_val'], optional=True,
          body='{ FAIL_MAYBE(); int v_ = a2; if(IN_HEAP(a1)){ ' + elem_guard('a1', True, 'copy-construct from') + ' v_ = G_blk[BLK(a1)].val[IDX(a1)]; } else if(a1 != 0 && a1 == G_ext_addr) v_ = G_ext_val; if(!IN_HEAP(a0)){ G_ext_addr = a0; G_ext_val = v_; return; } ' + elem_guard('a0', False, 'copy-construct') +
               'G_blk[BLK(a0)].live[IDX(a0)] = 1; G_blk[BLK(a0)].val[IDX(a0)] = v_; G_nctor++; G_ncopy++; return; }'),
-    Stub('gh_move', ghosts=['G_blk', 'G_nctor', 'G_nmove'], optional=True,
-         body='{ FAIL_MAYBE(); int v_ = a2; if(IN_HEAP(a1)){ ' + elem_guard('a1', True, 'move-construct from') + ' v_ = G_blk[BLK(a1)].val[IDX(a1)]; } if(!IN_HEAP(a0)) return; ' + elem_guard('a0', False, 'move-construct') +
+    Stub('gh_move', ghosts=['G_blk', 'G_nctor', 'G_nmove', 'G_ext_addr', 'G_ext_val'], optional=True,
+         body='{ FAIL_MAYBE(); int v_ = a2; if(IN_HEAP(a1)){ ' + elem_guard('a1', True, 'move-construct from') + ' v_ = G_blk[BLK(a1)].val[IDX(a1)]; } else if(a1 != 0 && a1 == G_ext_addr) v_ = G_ext_val; if(!IN_HEAP(a0)){ G_ext_addr = a0; G_ext_val = v_; return; } ' + elem_guard('a0', False, 'move-construct') +
               'G_blk[BLK(a0)].live[IDX(a0)] = 1; G_blk[BLK(a0)].val[IDX(a0)] = v_; G_nctor++; G_nmove++; return; }'),
     Stub('gh_assign', ghosts=['G_blk', 'G_nassign', 'G_ncopy'], optional=True,
          body='{ FAIL_MAYBE(); int v_ = a2; if(IN_HEAP(a1)){ ' + elem_guard('a1', True, 'assign from') + ' v_ = G_blk[BLK(a1)].val[IDX(a1)]; } else if(a1 != 0 && a1 == G_ext_addr) v_ = G_ext_val; if(!IN_HEAP(a0)) return; ' + elem_guard('a0', True, 'assign to') +
